@@ -21,7 +21,7 @@ Tie:
   different parent, same data under a fresh explicit id, the only equal sibling is the moved node itself, copy
   below a sibling, un-nesting a clone of the removed node itself, merging clone groups, same id at two levels of
   a from_dict branch) and building steps;
-* `Tree.load` of hand-made files (implementation + oracle only, the machine has no load operation): files
+* `Tree.load` of hand-made files (model: OLoad of Mut/MachineLoad.v, evaluated by Cases/CaseLoad.v, part 'load'; plus an oracle computed from the file): files
   in the native format with two entries of one parent carrying the same string / a string and a reference to an
   equal node must be refused with UniqueConstraintError; files repeating a label under different parents
   (incl. a clone below a sibling of its first occurrence, D12) must load, with the expected shape.
